@@ -3,6 +3,8 @@ import Cinco.Field.Codec
 import Cinco.Crypto.Secure
 import Cinco.Crypto.Hashes
 import Cinco.Crypto.Aes256
+import Cinco.Field.Chain
+import Cinco.Generated.Registration
 /-
   Wire format of values, field declarations and validator environments (driver side only).
 -/
@@ -186,6 +188,10 @@ def customCatalogue (name : String) (v : Val) : Except Err Val :=
       | v => .ok v
   | _ => .ok v
 
+/-- how /repo combines several registrations on one field (Generated/Registration.lean, read off `support.validator`) -/
+def registrationMode : Field.RegMode :=
+  if Generated.validatorRegistration == "chain" then .chain else .replace
+
 def lookupTable {α β} [BEq α] (tbl : List (α × β)) (k : α) : Option β :=
   (tbl.find? (fun e => e.1 == k)).map (·.2)
 
@@ -241,7 +247,7 @@ def envOfJson (j : Json) : R CodecEnv := do
     salt := fun a => (lookupTable salts a).getD [],
     hash := realHashFn,
     utf8 := leanUtf8Enc,
-    custom := customCatalogue,
+    custom := Field.compositeCatalogue customCatalogue registrationMode,
     encryptS := fun m s => (Secure.toBasic secureEnv key iv m (some s)).map Val.ofTree,
     decryptS := fun v => match v.toTree? with
       | some t => Secure.toPython secureEnv key t
